@@ -92,3 +92,142 @@ pub mod verif_kani {
         assert!(ok, "C11 vanilla typed header helpers equal the raw operation on the wire layout and round-trip");
     }
 }
+
+// ---- C06: world-login glue of this module (proof function and key setup replaced by recording stubs = their proved contracts)
+#[cfg(kani)]
+pub mod verif_kani_c06 {
+    use super::*;
+    use core::sync::atomic::{AtomicU8, AtomicU32, AtomicUsize, Ordering};
+    use crate::normalized_string::verif_kani::verif_make;
+    static P: [AtomicU8; 20] = [const { AtomicU8::new(0) }; 20];
+    static SS: AtomicU32 = AtomicU32::new(0);
+    static CS: AtomicU32 = AtomicU32::new(0);
+    static KEY_OK: AtomicUsize = AtomicUsize::new(0);
+    static K: [AtomicU8; 40] = [const { AtomicU8::new(0) }; 40];
+    static NEW_CALLS: AtomicUsize = AtomicUsize::new(0);
+    fn proof_stub(_u: &NormalizedString, k: &SessionKey, server_seed: u32, client_seed: u32) -> Proof {
+        SS.store(server_seed, Ordering::Relaxed); CS.store(client_seed, Ordering::Relaxed);
+        let mut same = true; let mut i = 0; while i < 40 { same &= k.as_le_bytes()[i] == K[i].load(Ordering::Relaxed); i += 1; }
+        KEY_OK.store(same as usize, Ordering::Relaxed);
+        let mut p = [0u8; 20]; i = 0; while i < 20 { p[i] = P[i].load(Ordering::Relaxed); i += 1; } Proof::from_le_bytes(p)
+    }
+    fn new_stub(k: [u8; 40]) -> HeaderCrypto {
+        let mut same = true; let mut i = 0; while i < 40 { same &= k[i] == K[i].load(Ordering::Relaxed); i += 1; }
+        NEW_CALLS.store(if same { 1 } else { 2 }, Ordering::Relaxed);
+        HeaderCrypto { decrypt: DecrypterHalf { key: [0; 20], index: 0, previous_value: 0 }, encrypt: EncrypterHalf { key: [0; 20], index: 0, previous_value: 0 } }
+    }
+    fn body(with_covers: bool) -> bool {
+        let name = verif_make(kani::any(), kani::any());
+        let key: [u8; 40] = kani::any(); let computed: [u8; 20] = kani::any(); let presented: [u8; 20] = kani::any();
+        let own: u32 = kani::any(); let peer: u32 = kani::any();
+        let mut i = 0; while i < 20 { P[i].store(computed[i], Ordering::Relaxed); i += 1; }
+        i = 0; while i < 40 { K[i].store(key[i], Ordering::Relaxed); i += 1; }
+        let seed = ProofSeed { seed: own };
+        let mut ok = seed.seed() == own;
+        let server: bool = kani::any();
+        if server {
+            let mut same = true; i = 0; while i < 20 { if presented[i] != computed[i] { same = false; } i += 1; }
+            match seed.into_server_header_crypto(&name, key, presented, peer) {
+                Ok(_) => { ok &= same && NEW_CALLS.load(Ordering::Relaxed) == 1; }
+                Err(e) => { ok &= !same && e.client_proof == presented && e.server_proof == computed && NEW_CALLS.load(Ordering::Relaxed) == 0; }
+            }
+            // the server passes (own seed, client seed)
+            ok &= SS.load(Ordering::Relaxed) == own && CS.load(Ordering::Relaxed) == peer && KEY_OK.load(Ordering::Relaxed) == 1;
+            if with_covers { kani::cover!(same); kani::cover!(!same); }
+        } else {
+            let (p, _c) = seed.into_client_header_crypto(&name, key, peer);
+            ok &= p == computed && NEW_CALLS.load(Ordering::Relaxed) == 1;
+            // the client passes (server seed, own seed)
+            ok &= SS.load(Ordering::Relaxed) == peer && CS.load(Ordering::Relaxed) == own && KEY_OK.load(Ordering::Relaxed) == 1;
+        }
+        ok
+    }
+    /// C06 (complete over proofs, keys, seeds): Ok iff whole 20-byte equality; Err carries both proofs and no crypto is built;
+    /// seeds are passed in the right roles; seed() returns the field; the crypto object is keyed with the presented session key.
+    #[kani::proof]
+    #[kani::unwind(42)]
+    #[kani::stub(crate::vanilla_header::internal::calculate_world_server_proof, proof_stub)]
+    #[kani::stub(crate::tbc_header::HeaderCrypto::new, new_stub)]
+    pub fn c06_tbc_world_login() { assert!(body(true), "C06 world-login: Ok iff whole-proof equality, Err carries both proofs, seeds in the right roles"); }
+    #[kani::proof]
+    #[kani::unwind(42)]
+    #[kani::stub(crate::vanilla_header::internal::calculate_world_server_proof, proof_stub)]
+    #[kani::stub(crate::tbc_header::HeaderCrypto::new, new_stub)]
+    pub fn c06_tbc_world_login_cex() { let ok = body(false); kani::cover!(!ok, "counterexample"); }
+}
+
+// ---- C07/C08: long calls - position bookkeeping across calls much longer than the key and across the 8-bit boundary
+#[cfg(kani)]
+pub mod verif_kani_long {
+    use super::*;
+    use super::decrypt::DecrypterHalf; use super::encrypt::EncrypterHalf;
+    const N: usize = 300;
+    /// (bounded: one call of 0..=300 bytes from any position): the position counter after the call is (position + length) mod L
+    /// on both halves - in particular for position + length >= 256
+    #[kani::proof]
+    #[kani::unwind(302)]
+    pub fn c08_long_call_300() {
+        let key: [u8; 20] = kani::any();
+        let idx: u8 = kani::any(); kani::assume(idx < 20);
+        let len: usize = kani::any(); kani::assume(len <= N);
+        let mut e = EncrypterHalf { key: key, index: idx, previous_value: 0 };
+        let mut d = DecrypterHalf { key: key, index: idx, previous_value: 0 };
+        let mut buf = [0u8; N];
+        e.encrypt(&mut buf[..len]);
+        d.decrypt(&mut buf[..len]);
+        let want = ((idx as usize + len) % 20) as u8;
+        kani::cover!(len == N);
+        assert!(e.index == want && d.index == want, "C07/C08 long call: position counter = (position + length) mod key length, also beyond 255 bytes");
+    }
+}
+
+// Bounded native search (labelled bounded; counterexample finder / stand-in when a cipher function leaves the verifiable fragment):
+// random keys and states, calls of many lengths including 0, 255..257, 300, 512 +- 1 and 1000 bytes, split into random chunkings.
+#[cfg(all(test, gtker_wow_srp_verif))]
+mod verif_search {
+    use super::*;
+    use super::decrypt::DecrypterHalf; use super::encrypt::EncrypterHalf;
+    struct Rng(u64);
+    impl Rng { fn next(&mut self) -> u64 { self.0 ^= self.0 << 13; self.0 ^= self.0 >> 7; self.0 ^= self.0 << 17; self.0 } }
+    const KL: usize = 20;
+    fn reference(key: &[u8; KL], idx: u8, prev: u8, plain: &[u8]) -> (Vec<u8>, u8, u8) {
+        let (mut i, mut p) = (idx as usize, prev);
+        let mut out = Vec::with_capacity(plain.len());
+        for x in plain { let c = (x ^ key[i]).wrapping_add(p); out.push(c); p = c; i = (i + 1) % KL; }
+        (out, i as u8, p)
+    }
+    #[test]
+    fn verif_search_c08_stream() {
+        let seed = std::env::var("VERIF_SEED").ok().and_then(|s| s.parse::<u64>().ok()).unwrap_or(0) ^ 0x9E3779B97F4A7C15;
+        let mut rng = Rng(seed);
+        let lens = [0usize, 1, 2, 3, 4, 5, 6, 7, 19, 20, 21, 39, 40, 41, 64, 100, 235, 236, 254, 255, 256, 257, 300, 511, 512, 513, 1000];
+        let mut n = 0u64;
+        for round in 0..40 { for &len in lens.iter() {
+            let mut key = [0u8; KL]; for k in key.iter_mut() { *k = rng.next() as u8; }
+            let idx = (rng.next() % KL as u64) as u8; let prev = rng.next() as u8;
+            let plain: Vec<u8> = (0..len).map(|_| rng.next() as u8).collect();
+            let (want, wi, wp) = reference(&key, idx, prev, &plain);
+            // sender: random chunking (with empty calls); receiver: a different random chunking
+            let mut e = EncrypterHalf { key: key, index: idx, previous_value: prev };
+            let mut d = DecrypterHalf { key: key, index: idx, previous_value: prev };
+            let mut wire = plain.clone();
+            let mut pos = 0;
+            while pos < len || (round % 3 == 0 && pos == len && rng.next() % 4 == 0) {
+                let c = if round % 2 == 0 { len - pos } else { (rng.next() as usize % (len - pos + 1)).min(len - pos) };
+                e.encrypt(&mut wire[pos..pos + c]); pos += c;
+                if c == 0 && pos == len { break; }
+            }
+            n += 1;
+            if wire != want || e.index != wi || e.previous_value != wp {
+                println!("REPLAY-FAIL c08_stream encrypt len={} index={} prev={} round={} (ciphertext or state differs from the recurrence)", len, idx, prev, round); return;
+            }
+            let mut back = wire.clone();
+            let mut pos = 0;
+            while pos < len { let c = 1 + (rng.next() as usize % (len - pos)); d.decrypt(&mut back[pos..pos + c]); pos += c; d.decrypt(&mut back[pos..pos]); }
+            if back != plain || d.index != wi || d.previous_value != wp {
+                println!("REPLAY-FAIL c08_stream decrypt len={} index={} prev={} round={} (plaintext not recovered or state differs)", len, idx, prev, round); return;
+            }
+        } }
+        println!("REPLAY-STATS c08_stream inputs={} all-ok", n);
+    }
+}
